@@ -379,3 +379,92 @@ Proof.
     try (pose proof (ts_is_identity_eq new_ts En) as Hnew); clear Hn Hi En;
     (split; [reflexivity|]); (split; [try rewrite Ho; ring|]); ts_crunch.
 Qed.
+
+From Coq Require Import Permutation.
+(* ---- use -> symbol as groups; the viewport clip decision (extension round 4) -------------------------------- *)
+Definition clip_list_eq (a b : list (N * ts)) : Prop :=
+  Forall2 (fun p q => fst p = fst q /\ ts_eq (snd p) (snd q)) a b.
+(* the same clips, each in the same coordinate system; the nesting order may differ (clips intersect) *)
+Definition clip_set_eq (a b : list (N * ts)) : Prop := exists b', Permutation b b' /\ clip_list_eq a b'.
+Ltac ts_atoms :=
+  unfold ts_eq, ts_concat, ts_identity, from_row in *; simpl in *;
+  repeat match goal with H : _ /\ _ |- _ => destruct H end;
+  repeat match goal with
+         | H : t_sx ?v == _ |- _ => is_var v; try rewrite H in *; clear H
+         | H : t_ky ?v == _ |- _ => is_var v; try rewrite H in *; clear H
+         | H : t_kx ?v == _ |- _ => is_var v; try rewrite H in *; clear H
+         | H : t_sy ?v == _ |- _ => is_var v; try rewrite H in *; clear H
+         | H : t_tx ?v == _ |- _ => is_var v; try rewrite H in *; clear H
+         | H : t_ty ?v == _ |- _ => is_var v; try rewrite H in *; clear H
+         end;
+  repeat split; try reflexivity; try lra.
+Ltac clip_lists := unfold clip_list_eq; repeat (constructor; simpl; try (split; [reflexivity|])); solve [ts_crunch | ts_atoms].
+Ltac clip_sets :=
+  unfold clip_set_eq;
+  first [ solve [eexists; split; [apply Permutation_refl|clip_lists]]
+        | solve [eexists; split; [apply perm_swap|clip_lists]] ].
+(* a use of a symbol converts like group(use transform + style) > clip > group(translate . viewBox transform, symbol style) >
+   content: same accumulated opacity and transform for every leaf, same clip above it, in the same coordinate system *)
+Theorem use_symbol_as_groups_guarded id orig_ts new_ts st sym_st clip k sh :
+  use_symbol_known_class clip st orig_ts = false ->
+  match cleaves_of (convert_use_symbol id orig_ts new_ts st sym_st clip [TLeaf k sh]),
+        cleaves_of (expand_use_symbol id orig_ts new_ts st sym_st clip [TLeaf k sh]) with
+  | [(i, o, t, c)], [(j, p, u, d)] => i = j /\ o == p /\ ts_eq t u /\ clip_set_eq c d
+  | _, _ => False
+  end.
+Proof.
+  unfold convert_use_symbol, expand_use_symbol, symbol_children, group_or_splice, use_symbol_known_class.
+  replace (is_g_or_use E_Symbol) with false by reflexivity. rewrite !orb_false_r.
+  destruct clip as [c|]; simpl; intro Hk.
+  - clear Hk. destruct (gstyle_neutral sym_st) eqn:Hn; destruct (ts_is_identity new_ts) eqn:En; simpl;
+      try (pose proof (neutral_opacity sym_st Hn) as Ho); try (pose proof (ts_is_identity_eq new_ts En) as Hnew);
+      destruct (g_clip st) eqn:Ec; destruct (g_clip sym_st) eqn:Es; simpl;
+      try (unfold gstyle_neutral in Hn; rewrite Es in Hn; rewrite ?andb_false_r in Hn; simpl in Hn; discriminate Hn);
+      clear Hn En;
+      (split; [reflexivity|]); (split; [try rewrite Ho; ring|]); (split; [solve [ts_crunch]|]); clip_sets.
+  - revert Hk.
+    destruct (gstyle_neutral sym_st) eqn:Hn; destruct (ts_is_identity (ts_concat orig_ts new_ts)) eqn:En; simpl;
+      try (pose proof (neutral_opacity sym_st Hn) as Ho); try (pose proof (ts_is_identity_eq _ En) as Hnew);
+      destruct (g_clip st) eqn:Ec; destruct (g_clip sym_st) eqn:Es; simpl; intro Hk;
+      try (apply negb_false_iff in Hk; apply ts_is_identity_eq in Hk);
+      try (unfold gstyle_neutral in Hn; rewrite Es in Hn; rewrite ?andb_false_r in Hn; simpl in Hn; discriminate Hn);
+      clear Hn En;
+      (split; [reflexivity|]); (split; [try rewrite Ho; ring|]); (split; [solve [ts_crunch | ts_atoms]|]); clip_sets.
+Qed.
+
+(* the unguarded statement is false: use transform="translate(50 0)" clip-path=#1 of a symbol with overflow="visible" *)
+Theorem use_symbol_as_groups_refuted :
+  exists id orig_ts new_ts st sym_st clip k sh,
+    use_symbol_known_class clip st orig_ts = true /\
+    ~ match cleaves_of (convert_use_symbol id orig_ts new_ts st sym_st clip [TLeaf k sh]),
+            cleaves_of (expand_use_symbol id orig_ts new_ts st sym_st clip [TLeaf k sh]) with
+      | [(i, o, t, c)], [(j, p, u, d)] => i = j /\ o == p /\ ts_eq t u /\ clip_set_eq c d
+      | _, _ => False
+      end.
+Proof.
+  exists 1%N, (from_translate 50 0), ts_identity,
+    {| g_opacity := 1; g_blend := 0%N; g_isolate := false; g_clip := Some 1%N; g_mask := None; g_filter := [] |},
+    plain, None, 7%N, 0%N.
+  split; [reflexivity|]. cbn. intros [_ [_ [_ [b' [Hp Hl]]]]].
+  apply Permutation_length_1_inv in Hp. subst b'. inversion Hl as [|? ? ? ? [_ Ht] _]; subst.
+  unfold ts_eq in Ht. cbn in Ht. destruct Ht as [_ [_ [_ [_ [Ht _]]]]]. discriminate Ht.
+Qed.
+
+From Coq Require Import String.
+From RV Require Import Gen.UseClip.
+(* get_clip_rect (source-derived, Gen/UseClip.v) decides: no clip for overflow visible / auto, for an svg element that has
+   neither a use size nor both of its own width and height, and for a non-positive size; otherwise the rectangle
+   clip_rect x y size with the use-overridden size - the rectangle C10_symbol_clip_meet / _slice / _none speak about *)
+Theorem viewport_clip_decision : forall (is_svg : bool) (ov : option string) us0 us1 hw hh x y w h,
+  let off := match ov with Some o => existsb (String.eqb o) ["visible"; "auto"]%string | None => false end in
+  let size := if is_svg then override_size us0 us1 {| sw := w; sh := h |} else {| sw := w; sh := h |} in
+  get_clip_rect is_svg ov us0 us1 hw hh x y w h =
+    if off || (is_svg && is_none us0 && is_none us1 && negb (hw && hh)) || negb (Qltb 0 (sw size) && Qltb 0 (sh size))
+    then None else Some (clip_rect x y size).
+Proof.
+  intros. subst off size. unfold get_clip_rect, override_size, clip_rect, valid_len, unwrap_or.
+  change OVERFLOW_NO_CLIP with ["visible"; "auto"]%string.
+  destruct (match ov with Some o => existsb (String.eqb o) ["visible"; "auto"]%string | None => false end); [reflexivity|].
+  destruct is_svg, us0, us1, hw, hh; cbn [is_none andb orb negb sw sh];
+    repeat match goal with |- context [Qltb 0 ?v] => destruct (Qltb 0 v) end; reflexivity.
+Qed.
